@@ -92,14 +92,22 @@ pub struct SpannedSym { pub value: Sym }
 impl Clone for Sym { #[verifier::external_body] fn clone(&self) -> (r: Sym) ensures r == *self { unimplemented!() } }
 #[verifier::external_body] pub struct ScopedMap { _p: () }
 impl ScopedMap {
+    // the names made visible so far, in order (ghost view; base::scoped_map::ScopedMap::insert adds a binding to the
+    // current scope -- ASSUMED)
+    pub uninterp spec fn names(&self) -> Seq<Sym>;
     #[verifier::external_body]
-    pub fn insert(&mut self, k: Sym, v: Ty) { unimplemented!() }
+    pub fn insert(&mut self, k: Sym, v: Ty) ensures final(self).names() == old(self).names().push(k) { unimplemented!() }
 }
+// the variables a pattern binds
+pub uninterp spec fn bound_names(p: Pat) -> Seq<Sym>;
+// `unaliased.row_iter().find(..).map(|f| f.typ.clone()).unwrap_or_else(Type::hole)` (R-iter)
+#[verifier::external_body]
+pub fn row_field_type_or_hole(typ: &Ty, field: &Sym) -> (r: Ty) { unimplemented!() }
 pub struct Suggest { pub stack: ScopedMap, pub env: TypeEnvRef }
 impl Suggest {
     // the recursive step
     #[verifier::external_body]
-    pub fn on_pattern(&mut self, p: &Pat) { unimplemented!() }
+    pub fn on_pattern(&mut self, p: &Pat) ensures final(self).stack.names() == old(self).stack.names() + bound_names(*p) { unimplemented!() }
 }
 
 // ---- visit_pattern, record patterns: `{ name }`, `{ name = pattern }`, `{ Type }` (base/src/ast.rs PatternField projected on spans)
